@@ -182,6 +182,10 @@ class World:
                 o = O[a["o"] - 1]
                 new = o.copy() if a["how"] == "copy" else (copy.deepcopy(o) if self.nstep % 2 else copy.copy(o))
                 self.res = {"t": "obj", "o": self.oid(new)}
+            elif op == "to":
+                o = O[a["o"] - 1]
+                target = ["m", "cm", "s"][a["u"] - 1]
+                self.res = {"t": "obj", "o": self.oid(o.to(target if self.nstep % 2 else self.osyris.units(target)))}
             elif op == "sortkey":
                 g = G[a["g"] - 1]
                 g.sortby(a["k"])
